@@ -25,6 +25,9 @@ type Ref struct {
 // CompileRef parses the program with the reference parser (in-memory accessor).
 func CompileRef(p *Program) (*Ref, error) {
 	ps := protoparse.Parser{Accessor: protoparse.FileContentsFromMap(p.Sources())}
+	if len(p.ImportDirs) > 0 {
+		ps.ImportPaths = append([]string{""}, p.ImportDirs...)
+	}
 	fds, err := ps.ParseFiles(p.Main)
 	if err != nil {
 		return nil, fmt.Errorf("reference parser rejects the generated program %s: %v", p.Name, err)
@@ -74,7 +77,7 @@ func Dynamicgo(p *Program, opts dproto.Options) (*dproto.ServiceDescriptor, erro
 			inc[k] = v
 		}
 	}
-	return opts.NewDesccriptorFromContent(context.Background(), p.Main, main, inc)
+	return opts.NewDesccriptorFromContent(context.Background(), p.Main, main, inc, p.ImportDirs...)
 }
 
 // DynamicgoIO returns the input and output type descriptors of method M (default options).
